@@ -164,6 +164,14 @@ def directed(rng):
             for i in range(1, 21): steps += [S(call(i)), D]
             for k in range(1, 21): steps += [hret('m%d.1' % k), D]
             add('high-conc', {'conc': 20}, steps)
+            # no limit given (0, or a negative one): the documented default, one handler per processor - and no more
+            ncpu = len(os.sched_getaffinity(0))
+            if ncpu <= 24:
+                for cv in (0, -3):
+                    steps = []
+                    for i in range(1, ncpu + 2): steps += [S(call(i)), D]
+                    for k in range(1, ncpu + 2): steps += [hret('m%d.1' % k), D]
+                    add('default-conc%d' % cv, {'conc': cv}, steps)
         # F2/F3: records after Stop
         add('f2-%d' % v, {}, [dict(a='stop'), D, dict(a='send', kind='garbage'), D])
         add('f2e-%d' % v, {}, [dict(a='stop'), D, dict(a='send', kind='empty'), D])
